@@ -18,6 +18,10 @@ pub struct LOp {
     pub kind: Kind,
     /// free text for diagnostics
     pub who: String,
+    /// issuing process (connection) and its position in that process's own order: operations
+    /// of one process are linearized in that order even where their intervals overlap
+    /// (pipelined requests). `None`: only real time orders the operation.
+    pub proc_seq: Option<(u32, u32)>,
 }
 
 pub fn linearizable(ops: &[LOp], init: Option<u32>) -> bool {
@@ -27,6 +31,13 @@ pub fn linearizable(ops: &[LOp], init: Option<u32>) -> bool {
         return true;
     }
     let full: u64 = if n == 64 { u64::MAX } else { (1u64 << n) - 1 };
+    // program order: the operations that must be linearized before operation i
+    let pred: Vec<u64> = (0..n)
+        .map(|i| match ops[i].proc_seq {
+            Some((p, q)) => (0..n).filter(|j| matches!(ops[*j].proc_seq, Some((p2, q2)) if p2 == p && q2 < q)).fold(0u64, |m, j| m | (1 << j)),
+            None => 0,
+        })
+        .collect();
     let mut memo: HashSet<(u64, Option<u32>)> = HashSet::new();
     // iterative DFS
     let mut stack: Vec<(u64, Option<u32>, usize)> = vec![(0, init, 0)];
@@ -46,7 +57,7 @@ pub fn linearizable(ops: &[LOp], init: Option<u32>) -> bool {
         let mut pushed = false;
         let mut i = next;
         while i < n {
-            if mask & (1 << i) == 0 && ops[i].inv < minret {
+            if mask & (1 << i) == 0 && ops[i].inv < minret && pred[i] & !mask == 0 {
                 let (ok, ns) = match &ops[i].kind {
                     Kind::Write(v) => (true, Some(*v)),
                     Kind::Read(r) => (*r == state, state),
@@ -73,7 +84,27 @@ pub fn linearizable(ops: &[LOp], init: Option<u32>) -> bool {
 mod tests {
     use super::*;
     fn op(inv: u64, ret: u64, kind: Kind) -> LOp {
-        LOp { inv, ret, kind, who: String::new() }
+        LOp { inv, ret, kind, who: String::new(), proc_seq: None }
+    }
+    #[test]
+    fn program_order_of_pipelined_requests() {
+        let p = |inv, ret, kind, q| LOp { inv, ret, kind, who: String::new(), proc_seq: Some((1, q)) };
+        // writes 1 then 2 by another process; one connection pipelines two reads that overlap
+        // in time: seeing 2 and then 1 goes backwards
+        let w = [op(1, 2, Kind::Write(1)), op(5, 6, Kind::Write(2))];
+        let mut h = w.to_vec();
+        h.push(p(3, 20, Kind::Read(Some(2)), 0));
+        h.push(p(4, 21, Kind::Read(Some(1)), 1));
+        assert!(!linearizable(&h, None));
+        let mut h = w.to_vec();
+        h.push(p(3, 20, Kind::Read(Some(1)), 0));
+        h.push(p(4, 21, Kind::Read(Some(2)), 1));
+        assert!(linearizable(&h, None));
+        // without the program order the first history would pass
+        let mut h = w.to_vec();
+        h.push(op(3, 20, Kind::Read(Some(2))));
+        h.push(op(4, 21, Kind::Read(Some(1))));
+        assert!(linearizable(&h, None));
     }
     #[test]
     fn simple() {
